@@ -298,6 +298,7 @@ class JSObject:
         # Creation order of all own keys; only tracked once the object has an
         # accessor property (until then it is the order of _properties)
         self._key_order: Optional[Dict[str, None]] = None
+        self._hidden: Optional[set] = None  # own keys that are not enumerable
 
     def get(self, key: str) -> JSValue:
         """Get a property value (does not invoke getters - use get_property for that)."""
@@ -385,7 +386,15 @@ class JSObject:
         self._setters.pop(key, None)
         if self._key_order is not None:
             self._key_order.pop(key, None)
+        if self._hidden is not None:
+            self._hidden.discard(key)
         return True
+
+    def hide(self, key: str) -> None:
+        """Make an own property non-enumerable."""
+        if self._hidden is None:
+            self._hidden = set()
+        self._hidden.add(key)
 
     def keys(self) -> List[str]:
         """Get own enumerable property keys in creation order."""
@@ -394,6 +403,8 @@ class JSObject:
         else:
             names = [k for k in self._key_order if self.has_own(k)]
             names.extend(k for k in self._properties if k not in self._key_order)
+        if self._hidden:
+            names = [k for k in names if k not in self._hidden]
         return names
 
     def __repr__(self) -> str:
